@@ -972,6 +972,25 @@ def run_scalar(case, ctx, bundle=None):
                 f2, f3 = eq.map2d(obj, out), eq.map3d(obj, out)
         if owned is not None:     # the caller's array is untouched, and scribbling on it now must not change the mapping
             check_owned(ctx, [owned], "map2d/map3d(%s)" % json.dumps(pc["p"]))
+            # the caller refills the very same array with another profile (same knots, other values) and maps again: the new function
+            # follows the array's present content - exactly as a map of a fresh copy of it does -, the first map keeps the old one
+            xo, co = owned
+            xo[...] = co
+            xo[1, ...] = 0.5 * co[1, ::-1] + (0.25 * float(np.max(np.abs(co[1]))) if xo.dtype.kind == "f" else 1)
+            refill = np.array(xo)
+            with ctx.cut("map2d/map3d construction"):
+                g_same, g_copy = eq.map2d(xo, out), eq.map2d(np.array(refill), out)
+                g3_same, g3_copy = eq.map3d(xo, out), eq.map3d(np.array(refill), out)
+            for i in range(min(n, 16)):
+                ri, zi = float(r[i]), float(z[i])
+                with ctx.cut("map2d evaluation"):
+                    va, vb, vc, vd = g_same(ri, zi), g_copy(ri, zi), g3_same(ri, 0.0, zi), g3_copy(ri, 0.0, zi)
+                ctx.check(va == vb and vc == vd, "profile-array-refilled",
+                          lambda: "the caller's profile array was refilled in place and mapped again: map2d / map3d of the same array object give "
+                          "%r / %r at (%r, %r), of a fresh copy with the same content %r / %r" % (va, vc, ri, zi, vb, vd))
+            ctx.check(np.array_equal(xo, refill), "caller-data-unchanged", "the refilled profile array was modified by map2d / map3d")
+            xo[...] = -3.0 * xo - 7.0
+            ctx.label("profile:array-refilled")
         tol = 1e-12 * scale
         got_all = []
         for i in range(n):
